@@ -514,13 +514,11 @@ class POXCore (EventMixin):
       callback.__name__ = "<None>"
     if isinstance(components, str):
       components = [components]
-    elif isinstance(components, set):
-      components = list(components)
     else:
       try:
-        _ = components[0]
         components = list(components)
-      except:
+      except TypeError:
+        # Not iterable; treat it as a single component
         components = [components]
     if name is None:
       #TODO: Use inspect here instead
